@@ -64,7 +64,7 @@ def run_scenarios(job):
     # absolute paths into some state (relocation fingerprint), a moved copy would not be the same workspace
     W = os.path.join(base, "w")
     saved = os.path.join(base, "saved")
-    sim0 = bs.Sim(W, job["repo"], job["deadline"] + 20)
+    sim0 = bs.Sim(W, job["repo"], job["deadline"] + 5)
     rec["root"] = W
     known = set()
     clean_cache = {}
@@ -72,7 +72,7 @@ def run_scenarios(job):
     def clean_build(proj):
         k = bs.json.dumps(proj, sort_keys=True)
         if k not in clean_cache:
-            simB = bs.Sim(os.path.join(base, "clean%d" % len(clean_cache)), job["repo"], job["deadline"] + 20)
+            simB = bs.Sim(os.path.join(base, "clean%d" % len(clean_cache)), job["repo"], job["deadline"] + 5)
             bs.render(proj, simB.root)
             resB = simB.invoke(develop, ["p0"] + bs.defines_argv(proj))
             snaps = {}
@@ -282,7 +282,7 @@ _CACHE = {}
 
 def oracle(ctx):
     n = ctx.scale(32, 400)
-    jobs = _jobs(ctx, n, "abort", 0.7, max_plans=ctx.scale(14, 0), n_chains=ctx.scale(2, 6))
+    jobs = _jobs(ctx, n, "abort", 0.55, max_plans=ctx.scale(14, 0), n_chains=ctx.scale(2, 6))
     recs = ctx.parallel(run_scenarios, jobs)
     _CACHE["recs"] = recs
     for rec in recs:
